@@ -4,7 +4,7 @@ from __future__ import annotations
 import ast
 
 from sa.core import Ob
-from sa.pm import AnalysisError, norm, body_nodes
+from sa.pm import AnalysisError, Undecided, norm, body_nodes
 from sa import gi, df, ru, sym
 from sa.gi import GuardWalker, FiniteAtomizer, FinSet
 
@@ -88,6 +88,52 @@ def c19_1(ctx):
     sym.against_reference(ctx, ctx.func(RMD, "rol"), _ref(), "rol", "rol", ints)
     sym.against_reference(ctx, ctx.func(RMD, "compress"), _ref(), ["compress", "compress_v2"], "compress", ints)
     sym.against_reference(ctx, ctx.func(RMD, "ripemd160"), _ref(), ["ripemd160", "ripemd160_v2"], "merkle-damgard", ints)
+    _padding_table(ctx)
+
+
+def _padding_table(ctx):
+    """Merkle-Damgard strengthening of RIPEMD-160: for every message length the final blocks are the unprocessed tail, 0x80, zero
+    fill and the bit length as 8 little-endian bytes, a whole number of 64-byte blocks (one, or two when fewer than 9 bytes are
+    free).  Decision table: the expression the final loop runs over (symbolic store, in terms of `data`) evaluated by the abstract
+    interpreter for every length 0..130 (all 64 tail lengths, both block counts)."""
+    import struct as _struct
+    from sa.interp import Frame, Unknown, PyRaise
+    f = ctx.func(RMD, "ripemd160")
+    dp = f.params()[0]
+    w = sym.walk(ctx, f)
+    loops = [n for n in ast.walk(f.node) if isinstance(n, ast.For)]
+    loops.sort(key=lambda n: n.lineno)
+    if len(loops) < 2 or not w.loop_in.get(id(loops[-1])):
+        raise Undecided("ripemd160: expected a loop over the full blocks and a loop over the final blocks")
+    st = w.loop_in[id(loops[-1])][0]
+    w.env = st.env
+    it_expr = w.sub(loops[-1].iter)
+    fin = None
+    for c in ast.walk(it_expr):
+        if isinstance(c, ast.Call) and isinstance(c.func, ast.Name) and c.func.id == "len" and len(c.args) == 1 and dp in {x.id for x in ast.walk(c.args[0]) if isinstance(x, ast.Name)}:
+            fin = c.args[0]
+            break
+    if fin is None or not norm(it_expr).startswith("range("):
+        raise Undecided("ripemd160: the final loop does not run over range(len(<final blocks>) ...); this rule does not read it")
+    it_ = ctx.interp
+    mv = it_.module(f.module.name)
+    bad = []
+    for n in range(0, 131):
+        data = bytes((i * 7 + 1) & 0xFF or 1 for i in range(n))
+        try:
+            val = it_.eval(fin, Frame(mv, None, {dp: data}))
+        except PyRaise as e:
+            bad.append((n, "raises %s" % e))
+            continue
+        if isinstance(val, Unknown) or not isinstance(val, (bytes, bytearray)):
+            raise Undecided("ripemd160: the final blocks `%s` are not evaluable for a given message length" % norm(fin)[:60])
+        t = n % 64
+        blocks = 1 if t <= 55 else 2
+        want = data[n - t:] + b"\x80" + b"\x00" * (64 * blocks - t - 9) + _struct.pack("<Q", 8 * n)
+        if bytes(val) != want:
+            bad.append((n, "%d bytes, expected %d" % (len(val), len(want)) if len(val) != len(want) else "content differs"))
+    ctx.check(not bad, "padding-table", ctx.where(f, loops[-1]), "ripemd160: the final blocks `%s` are wrong for message lengths %s: tail + 0x80 + zero fill + bit length must be one or two whole 64-byte blocks"
+              % (norm(fin)[:70], bad[:4]), sample={"lengths": 131, "final_blocks": norm(fin)[:100]})
 
 
 # ------------------------------------------------------------------ C19.2
